@@ -281,7 +281,40 @@ Section P.
     destruct (analyze value load input analysis x (configure value log cf s)) as [s3 a]; cbn [fst] in *.
     rewrite log_decision_mode, M, configure_mode. reflexivity.
   Qed.
+  (* ---- C15 in a long-lived process: what a main() run appends to the decision log is a function of its own
+     configuration and of the faults it meets - never of what the process decided, configured or failed before *)
+  Notation effect := (effect value load input analysis explicit).
+  Lemma main_effect s det x log cf df :
+    effect s (QMain det x log cf df) = main_effect_spec log cf df.
+  Proof.
+    cbn [Cache.effect]. set (s1 := match explicit with Some _ => s | None => set_mode value det s end).
+    unfold Cache.writes. rewrite analyze_logcfg, analyze_logdis. unfold Cache.configure, main_effect_spec.
+    destruct log as [l|]; [destruct cf; cbn; [reflexivity | destruct df; reflexivity] | reflexivity].
+  Qed.
+  Lemma main_effect_local s s' det x log cf df :
+    effect s (QMain det x log cf df) = effect s' (QMain det x log cf df).
+  Proof. rewrite !main_effect. reflexivity. Qed.
+  (* and the flag on the line is the flag of THIS run's configuration *)
+  Lemma main_effect_full s det x log cf df p full :
+    effect s (QMain det x log cf df) = Some (p, full) -> log = Some (p, full).
+  Proof.
+    rewrite main_effect. unfold main_effect_spec. destruct log as [l|]; [|discriminate].
+    destruct cf; [discriminate|]. destruct df; [discriminate|]. intro H. injection H as ->. reflexivity.
+  Qed.
 End P.
+
+(* a direct log_decision call (not something main() does without configuring first) is silenced by an earlier
+   failure: documented ("set on first failure, prevents repeated attempts"), and the reason main() must - and
+   does - call configure_logging every time *)
+Lemma direct_effect_refuted :
+  exists (s s' : state unit),
+    effect unit (fun _ => tt) unit (fun _ => Done (Allow, [])) None s (QLogDecision false)
+    <> effect unit (fun _ => tt) unit (fun _ => Done (Allow, [])) None s' (QLogDecision false).
+Proof.
+  exists {| lru := []; mode := HClaude; logcfg := Some ([120%N], true); logdis := false |},
+         {| lru := []; mode := HClaude; logcfg := Some ([120%N], true); logdis := true |}.
+  vm_compute. discriminate.
+Qed.
 
 (* a direct check_command call (not something the hook does) reads the MODE left by the last main() *)
 Lemma envelope_refuted :
